@@ -101,8 +101,9 @@ def install_contract(ctx, on_call=None, law=True):
                 ctx.count('em_models_from_generator_graph')
             except AttributeError:
                 true_edges = mol_edges(refmolecule)
-            model = Model(refmolecule.atoms_positions, true_edges,
-                          targetmolecule.atoms_positions, scale_factor)
+            with bus.neutral():
+                model = Model(refmolecule.atoms_positions, true_edges,
+                              targetmolecule.atoms_positions, scale_factor)
         except Exception as exc:  # noqa
             ctx.count('em_model_not_built')
         real_init(self, *args, **kwargs)
@@ -117,11 +118,12 @@ def install_contract(ctx, on_call=None, law=True):
             pass
         out = real_call(self, *args, **kwargs)
         try:
-            model = self.__dict__.get('_gmv_model')
-            if model is not None and arg_pos is not None:
-                judge_call(ctx, model, arg_pos, np.array(out.atoms_positions, float), law=law)
-                if on_call is not None:
-                    on_call(self, model, refmolecule, arg_pos, out)
+            with bus.neutral():
+                model = self.__dict__.get('_gmv_model')
+                if model is not None and arg_pos is not None:
+                    judge_call(ctx, model, arg_pos, np.array(out.atoms_positions, float), law=law)
+                    if on_call is not None:
+                        on_call(self, model, refmolecule, arg_pos, out)
         except Exception as exc:  # noqa
             ctx.violation('monitor-error:exchange-map', repr(exc))
         return out
